@@ -205,6 +205,8 @@ func checkC06(c *Ctx) {
 					}
 				}
 				RequireFactsAtInstr(c, p, "C06.special", fn, inv, "base-inverted", []Req{{"negative-exponent", `Int\.Sign\(p1\)`}})
+				okE, msgE := scannedExponentIsParameter(fn)
+				c.Ob("C06.special", relPkg(fnPkgPath(fn)), funcKey(fn), "scanned-exponent-is-the-parameter", p.Pos(fn.Pos()), okE, funcKey(fn)+": "+msgE)
 			}
 		}
 	}
